@@ -59,4 +59,6 @@ def run(rep, fb, tier):
     __import__("vf.rules.pyrules5", fromlist=["x"]).rule_py_none_after_loop(rep)
     __import__("vf.rules.binding2", fromlist=["x"]).rule_cstr_loses_length(rep, fb)
     __import__("vf.rules.lints3", fromlist=["x"]).rule_identities_offset_units(rep, fb)
+    __import__("vf.rules.pyrules5", fromlist=["x"]).rule_py_view_contiguous(rep)
+    __import__("vf.rules.pyrules5", fromlist=["x"]).rule_py_depth_selector_regular(rep)
     rep.units = fb.units + ["src/awkward/operations/convert.py, highlevel.py, _util.py, partition.py (ast)"]
